@@ -130,6 +130,10 @@ func c18GenValidate(r *Rng) c18Scn {
 			}
 		}
 	}
+	if r.Chance(1, 3) {
+		s.Warm = true
+		s.WarmAllow = c18GenWarm(r, s.Allow, s.Requests)
+	}
 	p := r.Perm(len(s.Allow))
 	sh := make([]c18PRule, len(s.Allow))
 	for i, j := range p {
@@ -137,6 +141,26 @@ func c18GenValidate(r *Rng) c18Scn {
 	}
 	s.Allow = sh
 	return s
+}
+
+// c18GenWarm is an earlier content of the allow-list: usually wider than the current one
+// (it covered the requests), sometimes narrower or unrelated.
+func c18GenWarm(r *Rng, allow, reqs []c18PRule) []c18PRule {
+	w := []c18PRule{}
+	switch r.Intn(4) {
+	case 0, 1:
+		w = append(w, allow...)
+		for _, q := range reqs {
+			w = append(w, c18Widen(r, q))
+		}
+	case 2:
+		for _, q := range reqs {
+			w = append(w, q)
+		}
+	default:
+		w = c18GenRules(r, 2, false)
+	}
+	return w
 }
 
 // ---------------------------------------------------------------- reconcile scenarios
@@ -280,6 +304,10 @@ func c18GenReconcile(r *Rng) c18Scn {
 		} else {
 			s.Allow = c18GenRules(r, 3, r.Chance(1, 5))
 		}
+	}
+	if s.Validator == "role" && len(t.Requests) > 0 && r.Chance(1, 2) {
+		s.Warm = true
+		s.WarmAllow = c18GenWarm(r, s.Allow, t.Requests)
 	}
 	prefix := "crossplane:provider:" + t.Name + ":"
 	for _, suf := range []string{"aggregate-to-edit", "aggregate-to-view", "system"} {
